@@ -200,13 +200,18 @@ theorem built_getKey (limit : Nat) (c : RClass) (t : Str) (key : PyVal) (kwargs 
 /-! ### the per-rule step as "apply the rule's outcome" -/
 
 def applyFinal (st : St) (r : Rule) : Final → St
-  | .entry t resp => { st with inst := st.inst ++ [(r.id, some resp)], results := appendAt t (mkEntry r t resp) st.results }
-  | .skipEntry resp => { st with inst := st.inst ++ [(r.id, some resp)], skips := st.skips ++ [(r.id, resp)] }
+  | .entry t resp =>
+    { st with inst := st.inst ++ [(r.id, some resp)], handled := st.handled ++ [r.id],
+              results := appendAt t (mkEntry r t resp) st.results }
+  | .skipEntry resp =>
+    { st with inst := st.inst ++ [(r.id, some resp)], handled := st.handled ++ [r.id], skips := st.skips ++ [(r.id, resp)] }
   | .metadata resp =>
-    { st with inst := st.inst ++ [(r.id, some resp)], metadata := mergeMd st.metadata resp.fields, mdFrom := st.mdFrom ++ [r.id] }
+    { st with inst := st.inst ++ [(r.id, some resp)], handled := st.handled ++ [r.id],
+              metadata := mergeMd st.metadata resp.fields, mdFrom := st.mdFrom ++ [r.id] }
   | .metadataKey resp k v =>
-    { st with inst := st.inst ++ [(r.id, some resp)], mdKeys := setKey k v st.mdKeys, mdkFrom := st.mdkFrom ++ [r.id] }
-  | .unlisted resp => { st with inst := st.inst ++ [(r.id, some resp)] }
+    { st with inst := st.inst ++ [(r.id, some resp)], handled := st.handled ++ [r.id],
+              mdKeys := setKey k v st.mdKeys, mdkFrom := st.mdkFrom ++ [r.id] }
+  | .unlisted resp => { st with inst := st.inst ++ [(r.id, some resp)], handled := st.handled ++ [r.id] }
   | .exception es => { st with excs := st.excs ++ es.map (r.id, ·) }
   | .nothing => st
 
@@ -234,7 +239,8 @@ theorem mdk_ne_skip : sMetadataKey ≠ sSkip := by decide
 theorem mdk_ne_md : sMetadataKey ≠ sMetadata := by decide
 
 theorem handle_eq (st : St) (r : Rule) (resp : Resp) :
-    handle { st with inst := st.inst ++ [(r.id, some resp)] } r resp = applyFinal st r (observeKind resp) := by
+    handle { st with inst := st.inst ++ [(r.id, some resp)], handled := st.handled ++ [r.id] } r resp =
+      applyFinal st r (observeKind resp) := by
   unfold handle observeKind
   split
   · rename_i t ht
@@ -251,9 +257,10 @@ theorem handle_eq (st : St) (r : Rule) (resp : Resp) :
         · simp [h1, h2, h3, applyFinal]
   · rfl
 
-theorem step_eq (env : Env) (st : St) (r : Rule) (hnew : r.id ∉ st.present) :
+theorem step_eq (env : Env) (st : St) (r : Rule) (hnew : r.id ∉ st.present) (hh : r.id ∉ st.handled) :
     step env st r = applyFinal st r (classify env st.present r) := by
   have hc : st.present.contains r.id = false := by simpa using hnew
+  have hhc : st.handled.contains r.id = false := by simpa using hh
   unfold step classify
   simp only [hc, Bool.not_false, Bool.true_and]
   cases hen : r.enabled with
@@ -270,6 +277,7 @@ theorem step_eq (env : Env) (st : St) (r : Rule) (hnew : r.id ∉ st.present) :
       unfold observe
       simp only
       rw [lookup'_append_new _ _ _ hnew]
+      simp only [hhc, Bool.false_eq_true, if_false, observeNew]
       exact handle_eq st r resp
     | skipped pre =>
       simp only [applyProc, finalOfProc]
@@ -297,15 +305,35 @@ def Fresh (present : List Comp) (rules : List Rule) : Prop :=
 
 def applyAll (st : St) (fs : List (Rule × Final)) : St := fs.foldl (fun s rf => applyFinal s rf.1 rf.2) st
 
-theorem foldl_step_eq (env : Env) (rules : List Rule) (st : St) (h : Fresh st.present rules) :
+theorem applyFinal_handled (st : St) (r : Rule) (f : Final) :
+    (applyFinal st r f).handled = if f.stored then st.handled ++ [r.id] else st.handled := by
+  cases f <;> simp [applyFinal, Final.stored]
+
+theorem foldl_step_eq (env : Env) (rules : List Rule) (st : St) (h : Fresh st.present rules)
+    (hsub : ∀ c ∈ st.handled, c ∈ st.present) :
     rules.foldl (step env) st = applyAll st (finals env st.present rules) := by
   induction rules generalizing st with
   | nil => rfl
   | cons r rs ih =>
     obtain ⟨hnd, hfresh⟩ := h
     have hr : r.id ∉ st.present := hfresh r (by simp)
+    have hrh : r.id ∉ st.handled := fun hc => hr (hsub _ hc)
     simp only [List.foldl_cons, finals, applyAll]
-    rw [step_eq env st r hr]
+    rw [step_eq env st r hr hrh]
+    have hsub' : ∀ c ∈ (applyFinal st r (classify env st.present r)).handled,
+        c ∈ (applyFinal st r (classify env st.present r)).present := by
+      intro c hc
+      rw [applyFinal_handled] at hc
+      rw [applyFinal_present]
+      split at hc
+      · rename_i hs
+        simp only [hs, if_true]
+        rcases List.mem_append.mp hc with h1 | h1
+        · exact List.mem_append.mpr (Or.inl (hsub _ h1))
+        · exact List.mem_append.mpr (Or.inr h1)
+      · rename_i hs
+        simp only [hs, if_false]
+        exact hsub _ hc
     have hp := applyFinal_present st r (classify env st.present r)
     have hfr : Fresh (applyFinal st r (classify env st.present r)).present rs := by
       simp only [List.map_cons, List.nodup_cons] at hnd
@@ -316,7 +344,7 @@ theorem foldl_step_eq (env : Env) (rules : List Rule) (st : St) (h : Fresh st.pr
       have h2 : r'.id ≠ r.id := by
         intro heq; apply hnd.1; rw [← heq]; exact List.mem_map_of_mem hr'
       split <;> simp [h1, h2]
-    rw [ih _ hfr, hp]
+    rw [ih _ hfr hsub', hp]
     rfl
 
 theorem finals_map_fst (env : Env) (present : List Comp) (rules : List Rule) :
@@ -688,7 +716,7 @@ theorem init_present (seed : List Comp) : (St.init seed).present = seed := by
 theorem run_eq (env : Env) (seed : List Comp) (rules : List Rule) (h : Fresh seed rules) :
     run env seed rules = applyAll (St.init seed) (finals env seed rules) := by
   unfold run
-  have := foldl_step_eq env rules (St.init seed) (by rw [init_present]; exact h)
+  have := foldl_step_eq env rules (St.init seed) (by rw [init_present]; exact h) (by intro c hc; cases hc)
   rw [init_present] at this
   exact this
 
@@ -940,6 +968,497 @@ theorem foldl_stepG_all_in_graph (env : Env) (rules : List Rule) (st : St) :
   induction rules generalizing st with
   | nil => rfl
   | cons r rest ih => simp only [List.map_cons, List.foldl_cons, ← step_eq_stepG, ih]
+
+
+/-! ### nothing is listed twice, over any history -/
+
+/-- how often component `id` is listed: entries under all headings, skip entries, metadata merges, metadata keys -/
+def listed (st : St) (id : Comp) : Nat :=
+  (tally st id).results + (tally st id).skips + (tally st id).metadata + (tally st id).mdKeys
+
+theorem listed_congr (st st' : St) (id : Comp) (h1 : st.results = st'.results) (h2 : st.skips = st'.skips)
+    (h3 : st.mdFrom = st'.mdFrom) (h4 : st.mdkFrom = st'.mdkFrom) : listed st id = listed st' id := by
+  simp [listed, tally, h1, h2, h3, h4]
+
+theorem handle_handled (st : St) (r : Rule) (resp : Resp) : (handle st r resp).handled = st.handled := by
+  unfold handle
+  repeat' split
+  all_goals rfl
+
+theorem listed_handle_self (st : St) (r : Rule) (resp : Resp) :
+    listed (handle st r resp) r.id ≤ listed st r.id + 1 := by
+  unfold handle
+  repeat' split
+  all_goals
+    simp [listed, tally, countAll_appendAt, mkEntry, List.countP_append]
+    try omega
+
+theorem listed_handle_other (st : St) (r : Rule) (resp : Resp) (id : Comp) (h : r.id ≠ id) :
+    listed (handle st r resp) id = listed st id := by
+  have hb : (r.id == id) = false := by simpa using h
+  unfold handle
+  repeat' split
+  all_goals simp [listed, tally, countAll_appendAt, mkEntry, List.countP_append, h, hb]
+
+/-- every component is listed at most once, and not at all unless the observer has dealt with it -/
+def ListInv (st : St) : Prop := ∀ id, listed st id ≤ 1 ∧ (id ∉ st.handled → listed st id = 0)
+
+theorem listInv_congr (st st' : St) (h1 : st.results = st'.results) (h2 : st.skips = st'.skips)
+    (h3 : st.mdFrom = st'.mdFrom) (h4 : st.mdkFrom = st'.mdkFrom) (h5 : st.handled = st'.handled)
+    (h : ListInv st) : ListInv st' := by
+  intro id
+  rw [← listed_congr st st' id h1 h2 h3 h4, ← h5]
+  exact h id
+
+theorem listInv_init (seed : List Comp) : ListInv (St.init seed) := by
+  intro id
+  simp [listed, tally, St.init, countAll]
+
+theorem listInv_observe (st : St) (r : Rule) (h : ListInv st) : ListInv (observe st r) := by
+  unfold observe
+  split
+  · rename_i v _
+    by_cases hc : st.handled.contains r.id = true
+    · simp only [hc, if_true]; exact h
+    · simp only [hc, Bool.false_eq_true, if_false]
+      have hn : r.id ∉ st.handled := by simpa using hc
+      intro id
+      obtain ⟨h1, h2⟩ := h id
+      cases v with
+      | none =>
+        simp only [observeNew]
+        have e : listed { st with handled := st.handled ++ [r.id] } id = listed st id := listed_congr _ _ _ rfl rfl rfl rfl
+        rw [e]
+        refine ⟨h1, ?_⟩
+        intro hid
+        exact h2 (fun hm => hid (List.mem_append.mpr (Or.inl hm)))
+      | some resp =>
+        simp only [observeNew]
+        have e : listed { st with handled := st.handled ++ [r.id] } id = listed st id := listed_congr _ _ _ rfl rfl rfl rfl
+        rw [handle_handled]
+        by_cases hid : r.id = id
+        · subst hid
+          have hl := listed_handle_self { st with handled := st.handled ++ [r.id] } r resp
+          rw [e] at hl
+          have := h2 hn
+          refine ⟨by omega, ?_⟩
+          intro hx
+          exact absurd (List.mem_append.mpr (Or.inr (List.mem_singleton.mpr rfl))) hx
+        · have hl := listed_handle_other { st with handled := st.handled ++ [r.id] } r resp id hid
+          rw [e] at hl
+          refine ⟨by omega, ?_⟩
+          intro hx
+          have := h2 (fun hm => hx (List.mem_append.mpr (Or.inl hm)))
+          omega
+  · exact h
+
+theorem listInv_engineStep (env : Env) (g : Bool) (st : St) (r : Rule) (h : ListInv st) :
+    ListInv (engineStep env g st r) := by
+  unfold engineStep
+  split
+  · cases hp : process env st.present r <;>
+      simp only [applyProc] <;>
+      exact listInv_congr st _ rfl rfl rfl rfl rfl h
+  · exact h
+
+theorem listInv_dispatch (l : List ObsId) (st : St) (r : Rule) (h : ListInv st) : ListInv (dispatch l st r) := by
+  unfold dispatch
+  induction l generalizing st with
+  | nil => exact h
+  | cons o rest ih =>
+    simp only [List.foldl_cons]
+    apply ih
+    split
+    · exact listInv_observe st r h
+    · exact h
+
+theorem listInv_runHistory (env : Env) (seed : List Comp) (ops : List Op) : ListInv (runHistory env seed ops).st := by
+  unfold runHistory
+  suffices ∀ (h : HSt), ListInv h.st → ListInv (ops.foldl (applyOp env) h).st from this _ (listInv_init seed)
+  induction ops with
+  | nil => intro h hh; exact hh
+  | cons op rest ih =>
+    intro h hh
+    simp only [List.foldl_cons]
+    apply ih
+    cases op with
+    | register o => exact hh
+    | run fired =>
+      simp only [applyOp]
+      clear ih
+      induction fired generalizing h with
+      | nil => exact hh
+      | cons f more ih2 =>
+        simp only [List.foldl_cons]
+        apply ih2
+        simp only [stepH]
+        exact listInv_dispatch _ _ _ (listInv_engineStep env _ _ _ hh)
+
+
+/-! ### a history is a single pass over its effective run order -/
+
+/-- the state without the exception log (a rule that raises is processed, and raises, again on every run) -/
+def forget (st : St) : St := { st with excs := [] }
+
+theorem forget_handle (st : St) (r : Rule) (resp : Resp) : forget (handle st r resp) = handle (forget st) r resp := by
+  unfold handle
+  repeat' split
+  all_goals rfl
+
+theorem forget_observe (st : St) (r : Rule) : forget (observe st r) = observe (forget st) r := by
+  unfold observe
+  show forget (match observe.lookup' r.id st.inst with
+      | some v => if st.handled.contains r.id then st else observeNew st r v
+      | none => st) =
+    match observe.lookup' r.id st.inst with
+      | some v => if st.handled.contains r.id then forget st else observeNew (forget st) r v
+      | none => forget st
+  split
+  · rename_i v _
+    split
+    · rfl
+    · cases v with
+      | none => rfl
+      | some resp => exact forget_handle _ r resp
+  · rfl
+
+theorem forget_engineStep (env : Env) (g : Bool) (st : St) (r : Rule) :
+    forget (engineStep env g st r) = forget (engineStep env g (forget st) r) := by
+  unfold engineStep
+  show forget (if (!st.present.contains r.id && g && r.enabled) = true then applyProc env st r (process env st.present r) else st) =
+    forget (if (!st.present.contains r.id && g && r.enabled) = true then applyProc env (forget st) r (process env st.present r)
+      else forget st)
+  split
+  · cases process env st.present r <;> rfl
+  · rfl
+
+theorem forget_stepG (env : Env) (st : St) (f : Fired) : forget (stepG env st f) = forget (stepG env (forget st) f) := by
+  unfold stepG
+  rw [forget_observe, forget_engineStep, ← forget_observe]
+
+theorem forget_idem (st : St) : forget (forget st) = forget st := rfl
+
+/-! monotonicity in the broker's key set -/
+
+def Sub (P P' : List Comp) : Prop := ∀ c ∈ P, c ∈ P'
+
+theorem ignored_mono (P P' : List Comp) (r : Rule) (h : Sub P P') (hi : ignored P r = true) : ignored P' r = true := by
+  unfold ignored at hi ⊢
+  simp only [List.any_eq_true, List.contains_iff_mem] at hi ⊢
+  obtain ⟨x, hx, hp⟩ := hi
+  exact ⟨x, hx, h x hp⟩
+
+theorem missingDeps_none_iff (P : List Comp) (r : Rule) :
+    missingDeps P r = none ↔ (∀ a ∈ r.requires, a ∈ P) ∧ ∀ g ∈ r.atLeastOne, ∃ x, x ∈ g ∧ x ∈ P := by
+  simp [missingDeps]
+
+theorem missingDeps_none_mono (P P' : List Comp) (r : Rule) (h : Sub P P') (hm : missingDeps P r = none) :
+    missingDeps P' r = none := by
+  rw [missingDeps_none_iff] at hm ⊢
+  refine ⟨fun a ha => h a (hm.1 a ha), fun g hg => ?_⟩
+  obtain ⟨x, hx, hp⟩ := hm.2 g hg
+  exact ⟨x, hx, h x hp⟩
+
+theorem observeKind_stored (resp : Resp) : (observeKind resp).stored = true := by
+  unfold observeKind
+  repeat' split
+  all_goals rfl
+
+theorem process_not_stored_mono (env : Env) (hc : WFCfg env.cfg) (P P' : List Comp) (r : Rule) (h : Sub P P')
+    (hn : ∀ resp, process env P r ≠ .stored resp) : ∀ resp, process env P' r ≠ .stored resp := by
+  intro resp
+  cases hi' : ignored P' r with
+  | true => rw [process_ignored env P' r hi']; simp
+  | false =>
+    have hi : ignored P r = false := by
+      cases hi0 : ignored P r with
+      | false => rfl
+      | true => rw [ignored_mono P P' r h hi0] at hi'; cases hi'
+    cases hm : missingDeps P r with
+    | some m =>
+      exfalso
+      have := hn (built env.limit env.cfg.skipCls sSkip .none (skipKwargs env r m))
+      rw [process_missing env P r m hi hm,
+        mkResp_of_valid env.limit env.cfg.skipCls sSkip _ _ hc.skip_type (skip_valid env r m hc)] at this
+      exact this rfl
+    | none =>
+      have hm' := missingDeps_none_mono P P' r h hm
+      rw [process_invoked' env P' r hi' hm']
+      have := hn resp
+      rw [process_invoked' env P r hi hm] at this
+      exact this
+
+
+/-- the run order that matters: an element counts the first time its rule is fired as a key of the graph -/
+def effective : List Comp → List Fired → List Rule
+  | _, [] => []
+  | seen, (r, g) :: rest =>
+    if g && !seen.contains r.id then r :: effective (r.id :: seen) rest else effective seen rest
+
+/-- processing `q` can never put a value into the broker, now or later -/
+def Unstorable (env : Env) (P : List Comp) (q : Rule) : Prop :=
+  q.enabled = false ∨ ∀ P', Sub P P' → ∀ resp, process env P' q ≠ .stored resp
+
+theorem unstorable_mono (env : Env) (P P' : List Comp) (q : Rule) (h : Sub P P') (hu : Unstorable env P q) :
+    Unstorable env P' q := by
+  rcases hu with hu | hu
+  · exact Or.inl hu
+  · exact Or.inr (fun P'' h2 => hu P'' (fun c hc => h2 c (h c hc)))
+
+/-- an identity stands for one rule -/
+def Consistent (L : List Rule) : Prop := ∀ a ∈ L, ∀ b ∈ L, a.id = b.id → a = b
+
+structure Sim (env : Env) (seed : List Comp) (seen : List Rule) (st st' : St) : Prop where
+  hf : forget st = forget st'
+  ha : ∀ c ∈ st.present, c ∈ seed ∨ (c ∈ seen.map (·.id) ∧ c ∈ st.handled)
+  hb : ∀ c ∈ st.handled, c ∈ st.present
+  hc : ∀ q ∈ seen, q.id ∉ st.present → Unstorable env st.present q
+
+theorem lookup'_some_of_mem (c : Comp) (l : List (Comp × Option Resp)) (h : c ∈ l.map (·.1)) :
+    ∃ v, observe.lookup' c l = some v := by
+  induction l with
+  | nil => cases h
+  | cons kv rest ih =>
+    obtain ⟨c', v'⟩ := kv
+    by_cases hc : c' = c
+    · exact ⟨v', by simp [observe.lookup', hc]⟩
+    · simp only [List.map_cons, List.mem_cons] at h
+      rcases h with h | h
+      · exact absurd h.symm hc
+      · obtain ⟨v, hv⟩ := ih h
+        exact ⟨v, by simp [observe.lookup', hc, hv]⟩
+
+theorem engineStep_skip (env : Env) (g : Bool) (st : St) (r : Rule)
+    (h : (!st.present.contains r.id && g && r.enabled) = false) : engineStep env g st r = st := by
+  simp only [engineStep, h, Bool.false_eq_true, if_false]
+
+theorem engineStep_go (env : Env) (g : Bool) (st : St) (r : Rule)
+    (h : (!st.present.contains r.id && g && r.enabled) = true) :
+    engineStep env g st r = applyProc env st r (process env st.present r) := by
+  simp only [engineStep, h, if_true]
+
+/-- firing a rule that does not count changes at most the exception log -/
+theorem stepG_refire (env : Env) (seed : List Comp) (seen : List Rule) (st st' : St) (hs : Sim env seed seen st st')
+    (r : Rule) (g : Bool) (hseed : r.id ∉ seed) (hdrop : g = false ∨ r ∈ seen) :
+    ∃ x, stepG env st (r, g) = { st with excs := x } := by
+  unfold stepG
+  by_cases hp : r.id ∈ st.present
+  · have hpc : st.present.contains r.id = true := by simpa using hp
+    have he : engineStep env g st r = st := engineStep_skip env g st r (by rw [hpc]; rfl)
+    simp only [he]
+    obtain ⟨v, hv⟩ := lookup'_some_of_mem r.id st.inst hp
+    have hh : st.handled.contains r.id = true := by
+      rcases hs.ha _ hp with h | h
+      · exact absurd h hseed
+      · simpa using h.2
+    exact ⟨st.excs, by unfold observe; simp only [hv, hh, if_true]⟩
+  · have hpc : st.present.contains r.id = false := by simpa using hp
+    have hl : ∀ x, observe { st with excs := x } r = { st with excs := x } := by
+      intro x
+      unfold observe
+      have : observe.lookup' r.id st.inst = none := lookup'_absent _ _ hp
+      simp only [this]
+    by_cases hge : (g && r.enabled) = true
+    · simp only [Bool.and_eq_true] at hge
+      have hr : r ∈ seen := by
+        rcases hdrop with h | h
+        · rw [h] at hge; cases hge.1
+        · exact h
+      have hu := hs.hc r hr hp
+      have hns : ∀ resp, process env st.present r ≠ .stored resp := by
+        rcases hu with hu | hu
+        · rw [hu] at hge; cases hge.2
+        · exact hu st.present (fun c hc => hc)
+      have he : engineStep env g st r = applyProc env st r (process env st.present r) :=
+        engineStep_go env g st r (by rw [hpc, hge.1, hge.2]; rfl)
+      simp only [he]
+      cases hproc : process env st.present r with
+      | stored resp => exact absurd hproc (hns resp)
+      | skipped pre => exact ⟨_, hl _⟩
+      | raised e => exact ⟨_, hl _⟩
+    · have he : engineStep env g st r = st := by
+        have : (!st.present.contains r.id && g && r.enabled) = false := by
+          simp only [hpc, Bool.not_false, Bool.true_and]
+          simpa using hge
+        exact engineStep_skip env g st r this
+      simp only [he]
+      exact ⟨st.excs, hl st.excs⟩
+
+theorem sim_refire (env : Env) (seed : List Comp) (seen : List Rule) (st st' : St) (hs : Sim env seed seen st st')
+    (r : Rule) (g : Bool) (hseed : r.id ∉ seed) (hdrop : g = false ∨ r ∈ seen) :
+    Sim env seed seen (stepG env st (r, g)) st' := by
+  obtain ⟨x, hx⟩ := stepG_refire env seed seen st st' hs r g hseed hdrop
+  rw [hx]
+  exact ⟨hs.hf, hs.ha, hs.hb, hs.hc⟩
+
+theorem classify_not_stored (env : Env) (P : List Comp) (r : Rule) (hen : r.enabled = true)
+    (h : (classify env P r).stored = false) : ∀ resp, process env P r ≠ .stored resp := by
+  intro resp hp
+  rw [classify_enabled env P r hen, hp] at h
+  simp only [finalOfProc, observeKind_stored] at h
+  cases h
+
+theorem sim_new (env : Env) (hcfg : WFCfg env.cfg) (seed : List Comp) (seen : List Rule) (st st' : St)
+    (hs : Sim env seed seen st st') (r : Rule) (hseed : r.id ∉ seed) (hnew : r.id ∉ seen.map (·.id)) :
+    Sim env seed (r :: seen) (stepG env st (r, true)) (step env st' r) := by
+  have hp : r.id ∉ st.present := by
+    intro hc
+    rcases hs.ha _ hc with h | h
+    · exact hseed h
+    · exact hnew h.1
+  have hh : r.id ∉ st.handled := fun hc => hp (hs.hb _ hc)
+  have hstep : stepG env st (r, true) = applyFinal st r (classify env st.present r) := by
+    rw [← step_eq_stepG]; exact step_eq env st r hp hh
+  refine ⟨?_, ?_, ?_, ?_⟩
+  · rw [forget_stepG, hs.hf, step_eq_stepG, ← forget_stepG]
+  · rw [hstep, applyFinal_present, applyFinal_handled]
+    intro c hc
+    cases hst : (classify env st.present r).stored with
+    | true =>
+      rw [hst] at hc
+      simp only [if_true] at hc ⊢
+      rcases List.mem_append.mp hc with h | h
+      · rcases hs.ha _ h with h1 | h1
+        · exact Or.inl h1
+        · exact Or.inr ⟨by simp [h1.1], List.mem_append.mpr (Or.inl h1.2)⟩
+      · have : c = r.id := by simpa using h
+        subst this
+        exact Or.inr ⟨by simp, List.mem_append.mpr (Or.inr (by simp))⟩
+    | false =>
+      rw [hst] at hc
+      simp only [Bool.false_eq_true, if_false] at hc ⊢
+      rcases hs.ha _ hc with h1 | h1
+      · exact Or.inl h1
+      · exact Or.inr ⟨by simp [h1.1], h1.2⟩
+  · rw [hstep, applyFinal_present, applyFinal_handled]
+    intro c hc
+    cases hst : (classify env st.present r).stored with
+    | true =>
+      rw [hst] at hc
+      simp only [if_true] at hc ⊢
+      rcases List.mem_append.mp hc with h | h
+      · exact List.mem_append.mpr (Or.inl (hs.hb _ h))
+      · exact List.mem_append.mpr (Or.inr h)
+    | false =>
+      rw [hst] at hc
+      simp only [Bool.false_eq_true, if_false] at hc ⊢
+      exact hs.hb _ hc
+  · rw [hstep, applyFinal_present]
+    intro q hq hqp
+    have hsub : Sub st.present (if (classify env st.present r).stored = true then st.present ++ [r.id] else st.present) := by
+      intro c hc
+      split
+      · exact List.mem_append.mpr (Or.inl hc)
+      · exact hc
+    rcases List.mem_cons.mp hq with hq | hq
+    · subst hq
+      cases hen : q.enabled with
+      | false => exact Or.inl hen
+      | true =>
+        have hst : (classify env st.present q).stored = false := by
+          cases hst : (classify env st.present q).stored with
+          | false => rfl
+          | true =>
+            exfalso
+            apply hqp
+            simp [hst]
+        refine Or.inr ?_
+        intro P' hP'
+        simp only [hst, Bool.false_eq_true, if_false] at hP'
+        exact process_not_stored_mono env hcfg st.present P' q hP' (classify_not_stored env st.present q hen hst)
+    · have hqp' : q.id ∉ st.present := fun hc => hqp (hsub _ hc)
+      exact unstorable_mono env _ _ q hsub (hs.hc q hq hqp')
+
+theorem mem_shift {α : Type} (a r : α) (l1 l2 : List α) (h : a ∈ (r :: l1) ++ l2) : a ∈ l1 ++ r :: l2 := by
+  simp only [List.cons_append, List.mem_cons, List.mem_append] at h ⊢
+  rcases h with h | h | h
+  · exact Or.inr (Or.inl h)
+  · exact Or.inl h
+  · exact Or.inr (Or.inr h)
+
+theorem mem_skip {α : Type} (a r : α) (l1 l2 : List α) (h : a ∈ l1 ++ l2) : a ∈ l1 ++ r :: l2 := by
+  simp only [List.mem_cons, List.mem_append] at h ⊢
+  rcases h with h | h
+  · exact Or.inl h
+  · exact Or.inr (Or.inr h)
+
+theorem sim_fold (env : Env) (hcfg : WFCfg env.cfg) (seed : List Comp) :
+    ∀ (fired : List Fired) (seen : List Rule) (st st' : St), Sim env seed seen st st' →
+      Consistent (seen ++ fired.map (·.1)) → (∀ f ∈ fired, f.1.id ∉ seed) →
+      forget (fired.foldl (stepG env) st) = forget ((effective (seen.map (·.id)) fired).foldl (step env) st') := by
+  intro fired
+  induction fired with
+  | nil => intro seen st st' hs _ _; exact hs.hf
+  | cons f rest ih =>
+    intro seen st st' hs hcons hseed
+    obtain ⟨r, g⟩ := f
+    have hrs : r.id ∉ seed := hseed (r, g) (by simp)
+    have hseed' : ∀ f ∈ rest, f.1.id ∉ seed := fun f hf => hseed f (List.mem_cons_of_mem _ hf)
+    simp only [List.foldl_cons, effective]
+    by_cases hcnd : (g && !(seen.map (·.id)).contains r.id) = true
+    · simp only [hcnd, if_true, List.foldl_cons]
+      simp only [Bool.and_eq_true, Bool.not_eq_true'] at hcnd
+      have hg : g = true := hcnd.1
+      have hnew : r.id ∉ seen.map (·.id) := by simpa using hcnd.2
+      subst hg
+      have hs' := sim_new env hcfg seed seen st st' hs r hrs hnew
+      have hcons' : Consistent ((r :: seen) ++ rest.map (·.1)) := by
+        intro a ha b hb hab
+        exact hcons a (mem_shift a r _ _ ha) b (mem_shift b r _ _ hb) hab
+      exact ih (r :: seen) _ _ hs' hcons' hseed'
+    · simp only [hcnd, Bool.false_eq_true, if_false]
+      have hdrop : g = false ∨ r ∈ seen := by
+        cases g with
+        | false => exact Or.inl rfl
+        | true =>
+          right
+          simp only [Bool.true_and, Bool.not_eq_true', Bool.not_eq_false] at hcnd
+          have hm : r.id ∈ seen.map (·.id) := by simpa using hcnd
+          obtain ⟨q, hq, hqr⟩ := List.mem_map.mp hm
+          have : q = r := hcons q (by simp [hq]) r (by simp) hqr
+          rw [← this]; exact hq
+      have hs' := sim_refire env seed seen st st' hs r g hrs hdrop
+      have hcons' : Consistent (seen ++ rest.map (·.1)) := by
+        intro a ha b hb hab
+        exact hcons a (mem_skip a r _ _ ha) b (mem_skip b r _ _ hb) hab
+      exact ih seen _ _ hs' hcons' hseed'
+
+theorem sim_init (env : Env) (seed : List Comp) : Sim env seed [] (St.init seed) (St.init seed) := by
+  refine ⟨rfl, ?_, ?_, ?_⟩
+  · intro c hc; rw [init_present] at hc; exact Or.inl hc
+  · intro c hc; cases hc
+  · intro q hq; cases hq
+
+theorem effective_fresh (seed : List Comp) (fired : List Fired) (seen : List Comp) (hseed : ∀ f ∈ fired, f.1.id ∉ seed) :
+    ((effective seen fired).map (·.id)).Nodup ∧ (∀ r ∈ effective seen fired, r.id ∉ seen) ∧
+    ∀ r ∈ effective seen fired, r.id ∉ seed := by
+  induction fired generalizing seen with
+  | nil => simp [effective]
+  | cons f rest ih =>
+    obtain ⟨r, g⟩ := f
+    have hseed' : ∀ f ∈ rest, f.1.id ∉ seed := fun f hf => hseed f (List.mem_cons_of_mem _ hf)
+    simp only [effective]
+    by_cases hcnd : (g && !seen.contains r.id) = true
+    · simp only [hcnd, if_true]
+      obtain ⟨a, b, c⟩ := ih (r.id :: seen) hseed'
+      simp only [Bool.and_eq_true, Bool.not_eq_true'] at hcnd
+      have hnew : r.id ∉ seen := by simpa using hcnd.2
+      refine ⟨?_, ?_, ?_⟩
+      · simp only [List.map_cons, List.nodup_cons]
+        refine ⟨?_, a⟩
+        intro hm
+        obtain ⟨q, hq, hqr⟩ := List.mem_map.mp hm
+        exact b q hq (by simp [hqr])
+      · intro q hq
+        rcases List.mem_cons.mp hq with h | h
+        · subst h; exact hnew
+        · exact fun hx => b q h (List.mem_cons_of_mem _ hx)
+      · intro q hq
+        rcases List.mem_cons.mp hq with h | h
+        · subst h; exact hseed (q, g) (by simp)
+        · exact c q h
+    · simp only [hcnd, Bool.false_eq_true, if_false]
+      exact ih seen hseed'
 
 
 end IV.Rules
